@@ -366,22 +366,22 @@ def escape_json_string(s: str, escaped: bool = False) -> str:
     )
 
 
+JSON_SIMPLE_ESCAPES = {
+    '"': '"', '\\': '\\', '/': '/', 'b': '\b', 'f': '\f', 'n': '\n', 'r': '\r', 't': '\t'
+}
+JSON_ESCAPE_PATTERN = re.compile(r'\\(["\\/bfnrt]|u[0-9A-Fa-f]{4}|U[0-9A-Fa-f]{8})')
+
+
 def unescape_json_string(s: str) -> str:
 
-    def unicode_escape_callback(match: re.Match[str]) -> str:
-        group = match.group(1) or match.group(2)
-        return chr(int(group.upper(), 16))
+    def escape_callback(match: re.Match[str]) -> str:
+        group = match.group(1)
+        if len(group) == 1:
+            return JSON_SIMPLE_ESCAPES[group]
+        return chr(int(group[1:], 16))
 
-    s = s.replace('\\"', '\"').\
-        replace(r'\b', '\b').\
-        replace(r'\r', '\r').\
-        replace(r'\n', '\n').\
-        replace(r'\t', '\t').\
-        replace(r'\f', '\f').\
-        replace(r'\/', '/').\
-        replace('\\\\', '\\')
-
-    return Patterns.unicode_escape.sub(unicode_escape_callback, s)
+    # One left-to-right pass: an escaped backslash must not start another escape ('\\\\u00e9')
+    return JSON_ESCAPE_PATTERN.sub(escape_callback, s)
 
 
 def split_function_test(function_test: str) -> list[str]:
